@@ -4,7 +4,7 @@ dispatch tables are inverse."""
 from vlib import fixtures
 import re
 
-from rules import pair
+from rules import pair, order
 from rules.variant import storage_switches, arm_region
 from vlib.mir import Fn, op_local
 from vlib.run import Broken
@@ -87,6 +87,16 @@ def run(ctx):
                                                                                        r.id.rsplit("::", 1)[-1]), w, r)
     ctx.instance("R-PAIR.marker.arms", nmark)
     ctx.floor("R-PAIR.marker.arms", 20)
+    # 2c. a buffering writer drains its own buffer before it repositions the sink
+    order.use_facts(fx)
+    sk = [i for i in fx.fn_ids("src/io/stream_buffer.rs") if i.endswith("StreamBufferedWriter<W> as std::io::Seek>::seek")]
+    if not sk:
+        raise Broken("StreamBufferedWriter::seek not found")
+    sf = Fn(fx.raw(sk[0]))
+    ctx.analysed_fns.add(sf.id)
+    order.precede(ctx, sf, r"StreamBufferedWriter<W> as std::io::Write>::flush$|StreamBufferedWriter::<W>::flush_buffer$",
+                  r"as std::io::Seek>::seek$|io::Seek::seek$", "R-ORDER", "own buffer flushed before the sink is repositioned")
+    ctx.floor("R-ORDER.events", 2)
     # 3. inverse dispatch of VarIntEncoder
     VE = "io::var_int_variants::VarIntEncoder::"
     ndisp = 0
